@@ -716,6 +716,18 @@ func run(r *core.Run) {
 		t1, a1 := sum()
 		perSpace[name] = map[string]any{"texts": t1 - t0, "accepted": a1 - a0, "wall_s": time.Since(start).Seconds(), "cpu_s": cpuSeconds() - cpu0}
 		fmt.Fprintf(os.Stderr, "c16: %s done: %d texts, %d accepted, %.0fs wall, %.0fs cpu, %d violations so far\n", name, t1-t0, a1-a0, time.Since(start).Seconds(), cpuSeconds()-cpu0, r.ViolationCount())
+		// the operand-shape sub-space of the same family: many operand shapes, lighter trivia
+		t0, a0 = sum()
+		start, cpu0 = time.Now(), cpuSeconds()
+		name += "-operand-shapes"
+		if r.Thorough() {
+			e.explorePrefix(name, prefixOperandShapes(), base7, []int{tvNone, tvOwn}, []int{tvNone, tvSame}, all, workers)
+		} else {
+			e.explorePrefix(name, prefixOperandShapes(), []int{tvNone, tvSpace, tvNL, tvSame}, []int{tvNone}, []int{tvNone}, all, workers)
+		}
+		t1, a1 = sum()
+		perSpace[name] = map[string]any{"texts": t1 - t0, "accepted": a1 - a0, "wall_s": time.Since(start).Seconds(), "cpu_s": cpuSeconds() - cpu0}
+		fmt.Fprintf(os.Stderr, "c16: %s done: %d texts, %d accepted, %.0fs wall, %.0fs cpu, %d violations so far\n", name, t1-t0, a1-a0, time.Since(start).Seconds(), cpuSeconds()-cpu0, r.ViolationCount())
 	}
 	// the token-size boundary space (boundary.go)
 	if !r.Expired() && only("token-size-boundary") {
